@@ -1184,6 +1184,7 @@ def _claim(body):
     return "?"
 
 
+@rule("C08", "R4.x0-sourced-constants", floor=20)
 @rule("C01", "C01.e.x0-sourced-constants", floor=20)
 def c01e(F, R):
     """constants generated for instructions whose sources are x0 agree with the operator algebra: op(0, imm) for I-type, op(0, 0) for R-type"""
@@ -1557,3 +1558,31 @@ def c03e(F, R):
         R.ok("edge-source", detail="NodeDirectionPass adds the label edge for `node.jumps_to()`")
     else:
         R.bad("edge-source", f"NodeDirectionPass draws label edges from {[ekey(x) for x in srcs]}, not from jumps_to() alone", f["sp"])
+
+
+@rule("C01", "C01.i.stack-store-replaces-the-slot-fact", floor=4)
+def c01i(F, R):
+    """the value pass has no kill for memory facts: a slot's old claim only disappears when the store that overwrites it generates the new one. So `gen_memory_value` must answer for every store whose base is sp, whatever the stored register (x0 included), with the slot `imm` and the stored register itself"""
+    from .nodeprops import eval_prop_full, Unx
+    # is there a separate kill for memory facts in the pass? (then a silent store is not stale)
+    for rs2 in ("X0", "X5", "X2", "X10"):
+        env = {"rs1": "X2", "rs2": rs2, "imm": 8, "inst": "Sw"}
+        key = f"Store|sp|rs2={rs2}"
+        try:
+            r = eval_prop_full(F, "gen_memory_value", "Store", env, trait="HasGenValueInfo")
+        except Unx as ex:
+            R.bad(key + "|unextractable", f"UNEXTRACTABLE: cannot evaluate gen_memory_value for `sw {rs2}, 8(sp)`: {ex}", None)
+            continue
+        gp = F.fn(F.method(PNODE, "gen_memory_value", trait="HasGenValueInfo"))
+        if r == "none":
+            R.bad(key, f"`sw {rs2.lower()}, 8(sp)` generates no fact for the slot: the claim the slot carried before the store survives it (there is no memory kill), e.g. a saved register is still believed saved after `sw zero` over it", gp["sp"])
+            continue
+        ok = isinstance(r, tuple) and r[0] == "some" and isinstance(r[1], tuple) and len(r[1]) == 2
+        if ok:
+            locv, val = r[1]
+            ok = isinstance(locv, tuple) and locv[:2] == ("call", "StackOffset") and locv[2] == 8 and \
+                isinstance(val, tuple) and val[0] == "call" and val[2] == rs2
+        if ok:
+            R.ok(key, detail=f"sw {rs2.lower()}, 8(sp) -> slot 8 := {val[1]}({rs2}, {val[3] if len(val) > 3 else ''})")
+        else:
+            R.bad(key, f"`sw {rs2.lower()}, 8(sp)` generates {r}: not the slot `8` holding the stored register", gp["sp"])
